@@ -154,36 +154,52 @@ def mk_reducer(spec):
     raise ValueError(cls)
 
 
+EXPECTED_EXTRAS = {   # persistent non-tensor state the model of each reducer class declares (tie to the code)
+    "NearestTraceReducer": {"_data__pointer", "_initial"}, "CumulativeTraceReducer": {"_data__pointer", "_initial"},
+    "PassthroughReducer": {"_data__pointer", "_initial"}, "EventReducer": {"_data__pointer", "_initial"},
+    "EMAReducer": {"_data__pointer", "_initial"}, "CAReducer": {"_data__pointer", "_initial", "_count"},
+}
+
+
 def run_reducer(case):
     T, k = case["T"], case["k"]
+    extra = 3
     g = torch.Generator().manual_seed(case["seed"])
-    xs = [(torch.rand(case["shape"], generator=g) < 0.4).double() for _ in range(T)]
+    xs = [(torch.rand(case["shape"], generator=g) < 0.4).double() * (1 + (t % 3)) for t in range(T + extra)]
     A = mk_reducer(case["spec"])
-    if A is None:
-        return {"ok": True, "events": 0, "skipped": True}
     outs, ck = [], None
-    for t in range(T):
+    for t in range(T + extra):
         if t == k:
             ck = sd_copy(A)
+        if t == case.get("src_clear_at"):
+            A.clear(keepshape=True)        # a source that was cleared (shape kept) and keeps running
         A(xs[t])
-        outs.append(A.peek().clone())
-    if k == T:
-        ck = sd_copy(A)
+        outs.append(None if A.peek() is None else A.peek().clone())
     finalA = sd_copy(A)
+    got = set(ck.get("_extra_state", {}))
+    if got != EXPECTED_EXTRAS[case["spec"]["cls"]]:
+        return {"ok": False, "what": "persistent_fields_differ",
+                "detail": f"extra state of {case['spec']['cls']} is {sorted(got)}, model declares {sorted(EXPECTED_EXTRAS[case['spec']['cls']])}"}
     Bm = mk_reducer(case["spec"])
     g2 = torch.Generator().manual_seed(case["seed"] + 3)
     for _ in range(case.get("prior", 1)):
         Bm((torch.rand(case["shape"], generator=g2) < 0.4).double())
+    if case.get("target_cleared"):
+        Bm.clear(keepshape=True)           # target run on other data, then cleared (lazily shaped storage kept)
     try:
         Bm.load_state_dict(ck, strict=True)
     except Exception as e:  # noqa
         return {"ok": False, "what": "load_failed", "detail": f"{type(e).__name__}: {str(e)[:400]}"}
-    for t in range(k, T):
+    if k >= 1:
+        pa, pb = (outs[k - 1] if case.get("src_clear_at") != k else None), Bm.peek()
+        if case.get("src_clear_at") is None and not out_equal(pb, pa):
+            return {"ok": False, "what": "restored_value_differs", "detail": f"value right after loading the step-{k} checkpoint differs from the source's"}
+    for t in range(k, T + extra):
+        if t == case.get("src_clear_at"):
+            Bm.clear(keepshape=True)
         Bm(xs[t])
         if not out_equal(Bm.peek(), outs[t]):
             return {"ok": False, "what": "future_output_differs", "detail": f"reducer value at step {t} (checkpoint at {k}) differs"}
-        if case["spec"].get("duration", 0.0) > 0 and t >= 1:
-            pass
     d = sd_equal(finalA, sd_copy(Bm))
     if d:
         return {"ok": False, "what": "final_state_differs", "detail": d}
